@@ -127,6 +127,7 @@ def replay_source(k, inputs):
                 decl.append('  static const unsigned char %s_raw[] = {%s};' % (nm, ','.join(str(x) for x in bs)))
                 callargs.append('mk<%s::register_type>(%s_raw)' % (gen.BB(ty, k.arch), nm))
         elif kind == 's': callargs.append('(int)%dLL' % symex.tosigned(inputs[nm], 32))
+        elif kind == 'b': callargs.append('true' if inputs[nm] else 'false')
         elif kind == 'z': callargs.append('%dULL' % inputs[nm])
         elif kind == 'T':
             w = TYPES[ty][1]; bs = int(inputs[nm]).to_bytes(w // 8, 'little')
@@ -370,7 +371,7 @@ def decide_one(dec, rec, k, run, ob, base, pre, goal, known, reported_known, job
         for d in run.desc:
             if d['kind'] == 'v': blk += [x == m.eval(x, model_completion=True) for x in d['lanes']]
             elif d['kind'] == 'm': blk += [b == m.eval(b, model_completion=True) for b in d['bools']]
-            elif d['kind'] in ('s', 'z', 'T'): blk.append(d['sym'] == m.eval(d['sym'], model_completion=True))
+            elif d['kind'] in ('s', 'z', 'T', 'b'): blk.append(d['sym'] == m.eval(d['sym'], model_completion=True))
         extra = extra + [z3.Not(z3.And(*blk))] if blk else extra
 
 
